@@ -17,7 +17,7 @@ func init() {
 			B.obligations(c, boundOpts{prop: "C18", onlyTainted: true, progress: true, alloc: true, contracts: true,
 				filter: func(f *ssa.Function) bool { return strings.HasPrefix(ssaFuncName(f), "plenccore.") }})
 			c.Floor("B.contract", 8)
-			c.Floor("B.progress", 2)
+			c.Floor("B.progress", 1)
 			// contracts of the read primitives
 			need := map[string][]string{
 				"plenccore.ReadVarUint": {"post: r1 <= len(data)", "post: r1 <= 10", "post: r1 >= -10"},
@@ -44,6 +44,7 @@ func init() {
 			c.Floor("X.tightguard", 2)
 			ruleVarintDelegation(c)
 			ruleVarSize(c)
+			ruleSkipVarint(c)
 			ruleTagFormat(c)
 			ruleWireConsts(c)
 		},
